@@ -46,7 +46,7 @@ func Run(c *corr.Ctx) {
 	c.Rule("sequential: every op sequence over {push,pull,close,reset} of a fixed length for capacities 1,2,4 (exhaustive) + random sequences up to 10^4 ops for capacities 1..256 with fill/drain phases, compared line by line (result + cursors + occupancy) with the Lean model; " +
 		"New on sizes 0..1030, 2^k-1, 2^k, 2^k+1, random uint64; blocking Pull woken by Push/Close; " +
 		"concurrent (black box): 1..8 producers + consumer + closer on the real RingBuffer and on the real Processor, history checked for linearizability to the bounded FIFO (porcupine) and for the direct clauses; " +
-		"deterministic Processor schedules (gated callbacks, injected errors, Close windows) compared with the Lean model; non-trivial = more than one operation; distinct = distinct op-line sequences / run configurations")
+		"deterministic Processor schedules (gated callbacks, injected errors, Close windows; every well-formed schedule of a fixed length over {push, failing push, start, exec, closebegin, closeend} for capacities 1,2 + random ones) compared with the Lean model; non-trivial = more than one operation; distinct = distinct op-line sequences / run configurations")
 	if c.Replay != nil {
 		replay(c)
 		return
@@ -122,7 +122,11 @@ func Run(c *corr.Ctx) {
 	if stop("concurrent ring cases") {
 		return
 	}
-	// deterministic Processor schedules
+	// deterministic Processor schedules: exhaustive small scope, then random
+	for _, size := range []int{1, 2} {
+		exhaustiveAsync(c, size, c.N(5, 7), false)
+	}
+	exhaustiveAsync(c, 1, c.N(4, 6), true)
 	for i, n := 0, c.N(1500, 20000); i < n && !enough(); i++ {
 		ac := genAsyncCase(c)
 		guarded(c, ac, "internal/asyncprocessor", func() { runAsyncDet(c, ac, "async-det") })
